@@ -45,6 +45,19 @@ def _divide_and_round(a: float, b: float) -> int:
     return q
 
 
+def _native_microseconds(delta: timedelta) -> int:
+    """
+    Exact length in microseconds of a timedelta, as total_seconds() reports it
+    (for a Duration: years and months counted as 365 and 30 days).
+    """
+    if isinstance(delta, Duration):
+        return delta._native_microseconds()
+
+    return (
+        delta.days * SECONDS_PER_DAY + delta.seconds
+    ) * US_PER_SECOND + delta.microseconds
+
+
 def _timedelta_to_microseconds(delta: timedelta) -> int:
     """
     Length in microseconds of the right operand of //, /, % and divmod(),
@@ -109,18 +122,27 @@ class Duration(timedelta):
             weeks,
         )
 
-        # Intuitive normalization
-        total = self.total_seconds() - (years * 365 + months * 30) * SECONDS_PER_DAY
-        self._total = total
+        # Intuitive normalization, on the integer microseconds of the native
+        # slots: the float total_seconds() loses microseconds for long durations
+        total_us = (
+            (
+                timedelta.days.__get__(self)
+                - (years * 365 + months * 30)
+            )
+            * SECONDS_PER_DAY
+            + timedelta.seconds.__get__(self)
+        ) * US_PER_SECOND + timedelta.microseconds.__get__(self)
+        self._total = total_us / US_PER_SECOND
 
         m = 1
-        if total < 0:
+        if total_us < 0:
             m = -1
 
-        self._microseconds = round(total % m * 1e6)
-        self._seconds = abs(int(total)) % SECONDS_PER_DAY * m
+        abs_seconds, abs_microseconds = divmod(abs(total_us), US_PER_SECOND)
+        self._microseconds = abs_microseconds * m
+        self._seconds = abs_seconds % SECONDS_PER_DAY * m
 
-        _days = abs(int(total)) // SECONDS_PER_DAY * m
+        _days = abs_seconds // SECONDS_PER_DAY * m
         self._days = _days
         self._remaining_days = abs(_days) % 7 * m
         self._weeks = abs(_days) // 7 * m
@@ -344,9 +366,18 @@ class Duration(timedelta):
 
         return rep.replace(", )", ")")
 
+    def _native_microseconds(self) -> int:
+        days = self._years * 365 + self._months * 30 + self._days
+
+        return (
+            days * SECONDS_PER_DAY + self._seconds
+        ) * US_PER_SECOND + self._microseconds
+
     def __add__(self, other: timedelta) -> Self:
         if isinstance(other, timedelta):
-            return self.__class__(seconds=self.total_seconds() + other.total_seconds())
+            return self.__class__(
+                microseconds=self._native_microseconds() + _native_microseconds(other)
+            )
 
         return NotImplemented
 
@@ -354,7 +385,9 @@ class Duration(timedelta):
 
     def __sub__(self, other: timedelta) -> Self:
         if isinstance(other, timedelta):
-            return self.__class__(seconds=self.total_seconds() - other.total_seconds())
+            return self.__class__(
+                microseconds=self._native_microseconds() - _native_microseconds(other)
+            )
 
         return NotImplemented
 
@@ -376,7 +409,7 @@ class Duration(timedelta):
             return self.__class__(
                 years=self._years * other,
                 months=self._months * other,
-                seconds=self._total * other,
+                microseconds=self._to_microseconds() * other,
             )
 
         if isinstance(other, float):
@@ -527,12 +560,14 @@ class AbsoluteDuration(Duration):
             days, seconds, microseconds, milliseconds, minutes, hours, weeks
         )
 
-        # Intuitive normalization
-        self._total = delta.total_seconds()
-        total = abs(self._total)
+        # Intuitive normalization, on integer microseconds (see Duration)
+        total_us = (
+            delta.days * SECONDS_PER_DAY + delta.seconds
+        ) * US_PER_SECOND + delta.microseconds
+        self._total = total_us / US_PER_SECOND
 
-        self._microseconds = round(total % 1 * 1e6)
-        days, self._seconds = divmod(int(total), SECONDS_PER_DAY)
+        total, self._microseconds = divmod(abs(total_us), US_PER_SECOND)
+        days, self._seconds = divmod(total, SECONDS_PER_DAY)
         self._days = abs(days + years * 365 + months * 30)
         self._weeks, self._remaining_days = divmod(days, 7)
         self._months = abs(months)
@@ -542,6 +577,13 @@ class AbsoluteDuration(Duration):
 
     def total_seconds(self) -> float:
         return abs(self._total)
+
+    def _native_microseconds(self) -> int:
+        days = self._weeks * 7 + self._remaining_days
+
+        return (
+            days * SECONDS_PER_DAY + self._seconds
+        ) * US_PER_SECOND + self._microseconds
 
     def __deepcopy__(self, _: dict[int, Self]) -> Self:
         # The components are absolute values: rebuilding from them
